@@ -1747,11 +1747,15 @@ Proof.
       rewrite map_app, concat_app, app_assoc. reflexivity.
 Qed.
 
-Fixpoint run_sessions (ss : list ((bytes -> bool) * list entry)) (file : bytes) : bytes :=
-  match ss with
-  | [] => file
-  | s :: ss' => run_sessions ss' (session (fst s) file (snd s))
-  end.
+(* A run of several invocations, as a relation: [runs ss f f'] iff starting with the file [f] the
+   invocations [ss] (each with its own liveness oracle and records) leave [f'] = the fold of
+   [session].  (A relation rather than a Fixpoint on purpose: [session] contains [load_log], whose
+   buffer size is a 262144-deep unary [nat] once unfolded; any conversion problem that makes the
+   kernel compare two unfolded [load_log] terms structurally overflows the stack.) *)
+Inductive runs : list ((bytes -> bool) * list entry) -> bytes -> bytes -> Prop :=
+| runs_nil f : runs [] f f
+| runs_cons live es ss f f' :
+    runs ss (session live f es) f' -> runs ((live, es) :: ss) f f'.
 
 Fixpoint run_records (ss : list ((bytes -> bool) * list entry)) (R : list entry) : list entry :=
   match ss with
@@ -1759,23 +1763,20 @@ Fixpoint run_records (ss : list ((bytes -> bool) * list entry)) (R : list entry)
   | s :: ss' => run_records ss' (session_records (fst s) R (snd s))
   end.
 
-Lemma run_sessions_cons live es ss file :
-  run_sessions ((live, es) :: ss) file = run_sessions ss (session live file es).
-Proof. reflexivity. Qed.
-
 Lemma run_records_cons live es ss R :
   run_records ((live, es) :: ss) R = run_records ss (session_records live R es).
 Proof. reflexivity. Qed.
 
-Lemma run_sessions_holds ss : forall file R,
+Lemma runs_holds ss file file' :
+  runs ss file file' -> forall R,
   holds file R ->
   Forall wf_entry (concat (map snd ss)) -> Forall (fits load_buf_size) (concat (map snd ss)) ->
-  holds (run_sessions ss file) (run_records ss R).
+  holds file' (run_records ss R).
 Proof.
-  induction ss as [|[live es] ss IH]; intros file R Hh Hw Hf; [assumption|].
+  intros Hruns. induction Hruns as [f|live es ss f f' Hruns IH]; intros R Hh Hw Hf; [assumption|].
   cbn [map concat snd] in Hw, Hf.
   apply Forall_app in Hw. destruct Hw as [Hw1 Hw2]. apply Forall_app in Hf. destruct Hf as [Hf1 Hf2].
-  rewrite run_sessions_cons, run_records_cons.
+  rewrite run_records_cons.
   apply IH; [apply session_step; assumption|assumption|assumption].
 Qed.
 
@@ -1798,13 +1799,15 @@ Qed.
 Lemma lookup_filter_live (live : bytes -> bool) n l :
   lookup_out n (filter (fun e => live (e_out e)) l) = if live n then lookup_out n l else None.
 Proof.
-  induction l as [|x l IH]; [destruct (live n); reflexivity|]. cbn [filter lookup_out].
-  destruct (bytes_eqb_spec (e_out x) n) as [Heq|Hne].
-  - rewrite Heq. destruct (live n) eqn:Hl.
-    + cbn [lookup_out]. rewrite Heq, bytes_eqb_refl. reflexivity.
-    + rewrite IH, Hl. reflexivity.
-  - destruct (live (e_out x)); [|exact IH]. cbn [lookup_out].
-    destruct (bytes_eqb_spec (e_out x) n); [contradiction|exact IH].
+  destruct (live n) eqn:Hl.
+  - induction l as [|x l IH]; [reflexivity|]. cbn [filter lookup_out].
+    destruct (bytes_eqb_spec (e_out x) n) as [Heq|Hne].
+    + rewrite Heq, Hl. cbn [lookup_out]. rewrite Heq, bytes_eqb_refl. reflexivity.
+    + destruct (live (e_out x)); [|exact IH]. cbn [lookup_out].
+      destruct (bytes_eqb_spec (e_out x) n); [contradiction|exact IH].
+  - induction l as [|x l IH]; [reflexivity|]. cbn [filter].
+    destruct (live (e_out x)) eqn:Hx; [|exact IH]. cbn [lookup_out].
+    destruct (bytes_eqb_spec (e_out x) n) as [Heq|Hne]; [congruence|exact IH].
 Qed.
 
 (* the latest record of an output in the compacted table *)
@@ -1841,7 +1844,8 @@ Proof.
     apply IH; [intros s Hs; apply Hlive; right; assumption|].
     unfold session_records. destruct (needs_of R); rewrite !latest_app.
     + destruct (latest n es); [reflexivity|]. rewrite latest_compacted.
-      rewrite (Hlive (live, es) (or_introl eq_refl)). apply Hinv.
+      pose proof (Hlive (live, es) (or_introl eq_refl)) as Hl. cbn [fst] in Hl. rewrite Hl.
+      apply Hinv.
     + destruct (latest n es); [reflexivity|]. apply Hinv.
 Qed.
 
@@ -1849,24 +1853,112 @@ Qed.
    recompacting whenever Load asks for it: the final log loads; every entry of the table is the
    latest record ever written for its output; and an output that was live at every invocation has
    exactly its latest record in the table. *)
-Theorem C08_sessions_recompact (ss : list ((bytes -> bool) * list entry)) :
+Theorem C08_sessions_recompact (ss : list ((bytes -> bool) * list entry)) (file : bytes) :
   let all := concat (map snd ss) in
+  runs ss [] file ->
   Forall wf_entry all -> Forall (fits load_buf_size) all ->
   exists ents b,
-    load_log (run_sessions ss []) = LOk ents b /\
+    load_log file = LOk ents b /\
     (forall y, In y ents -> latest (e_out y) all = Some y) /\
     (forall n, (forall s, In s ss -> fst s n = true) -> lookup_out n ents = latest n all).
 Proof.
-  intros all Hw Hf.
+  intros all Hruns Hw Hf. subst all.
   assert (Hh0 : holds [] []).
   { split; [constructor|]. split; [constructor|]. left. split; reflexivity. }
-  pose proof (run_sessions_holds ss [] [] Hh0 Hw Hf) as Hh.
+  pose proof (runs_holds ss [] file Hruns [] Hh0 Hw Hf) as Hh.
   rewrite (holds_load _ _ Hh). unfold loaded. eexists. eexists. split; [reflexivity|].
   split.
   - intros y Hy. apply In_last_wins_latest in Hy.
     destruct (run_records_inv ss [] [] (fun n => or_introl eq_refl) (e_out y)) as [H|H].
-    + rewrite <- H. assumption.
+    + cbn [app] in H. rewrite <- H. assumption.
     + congruence.
   - intros n Hlive. rewrite lookup_last_wins.
     apply (run_records_live ss [] [] n Hlive eq_refl).
+Qed.
+
+(* ---------------------------------------------------------------------------------------- *)
+(** ** The merged line, case by case, for a fragment torn out of a well-formed record *)
+
+Lemma split_tabs_notab (a : bytes) : no_byte 9 a = true -> split_tabs a = [a].
+Proof.
+  induction a as [|c a IH]; [reflexivity|]. rewrite no_byte_cons. intros H. cbn [split_tabs].
+  destruct (N.eqb_spec c 9) as [?|_]; [lia|]. rewrite IH by lia. reflexivity.
+Qed.
+
+Lemma split_tabs_app (a b : bytes) :
+  no_byte 9 a = true -> split_tabs (a ++ 9 :: b) = a :: split_tabs b.
+Proof.
+  induction a as [|c a IH]; [reflexivity|]. rewrite no_byte_cons. intros H. cbn [app split_tabs].
+  destruct (N.eqb_spec c 9) as [?|_]; [lia|]. rewrite IH by lia. reflexivity.
+Qed.
+
+(* the fragment is empty or a proper prefix of the body of one of the records *)
+Lemma torn_fragment_prefix a : forall es,
+  torn_fragment_from a es = [] \/
+  exists et j, In et es /\ (j <= length (render_body et))%nat /\
+               torn_fragment_from a es = firstn j (render_body et).
+Proof.
+  intros es. revert a. induction es as [|e es IH]; intros a; [left; reflexivity|].
+  cbn [torn_fragment_from].
+  destruct (Nat.leb_spec (length (render_entry e)) a) as [Hle|Hgt].
+  - destruct (IH (a - length (render_entry e))%nat) as [H|(et & j & Hin & Hj & H)]; [left; assumption|].
+    right. exists et, j. split; [right; assumption|]. split; assumption.
+  - right. exists e, a. unfold render_entry in *. rewrite app_length in Hgt. cbn [length] in Hgt.
+    split; [left; reflexivity|]. split; [lia|].
+    rewrite firstn_app. replace (a - length (render_body e))%nat with 0%nat by lia.
+    cbn [firstn]. apply app_nil_r.
+Qed.
+
+(* no tab yet (the tear is inside the start time): the next record survives with its own name,
+   end time, mtime and hash; only its start time is read from the glued digits *)
+Lemma merged_0tabs (frag : bytes) e' :
+  wf_entry e' -> no_byte 9 frag = true ->
+  merged_line_entry frag e' =
+  [ {| e_out := e_out e'; e_start := c_atoi (frag ++ print_dec_Z (e_start e'));
+       e_end := e_end e'; e_mtime := e_mtime e'; e_hash := e_hash e' |} ].
+Proof.
+  intros Hwf Hf. destruct (wf_entry_inv e' Hwf) as (_ & H0 & _ & _ & Hs & He & Hm & Hh).
+  unfold merged_line_entry. rewrite split_tabs_notab by assumption.
+  rewrite atoi_print0, strtoll_print0, strtoull16_print, c_str_id by assumption. reflexivity.
+Qed.
+
+(* three tabs (the tear is inside the output name, or right after it): ONE entry whose name is
+   the torn part of the name glued to the next record's start time, with the torn record's
+   genuine times and mtime, and a hash read (as hex) from the next record's decimal end time *)
+Lemma merged_3tabs et (o1 : bytes) e' :
+  no_byte 9 o1 = true ->
+  in_int32 (e_start et) = true -> in_int32 (e_end et) = true -> in_int64 (e_mtime et) = true ->
+  merged_line_entry
+    (print_dec_Z (e_start et) ++ 9 :: print_dec_Z (e_end et) ++ 9 :: print_dec_Z (e_mtime et) ++
+     9 :: o1) e' =
+  [ {| e_out := o1 ++ print_dec_Z (e_start e'); e_start := e_start et; e_end := e_end et;
+       e_mtime := e_mtime et;
+       e_hash := c_strtoull16 (print_dec_Z (e_end e') ++ 9 :: print_dec_Z (e_mtime e') ++ 9 ::
+                               c_str (e_out e') ++ 9 :: print_hex_N (e_hash e')) |} ].
+Proof.
+  intros Ho Hs He Hm. unfold merged_line_entry.
+  rewrite !split_tabs_app by (apply print_dec_Z_no_byte; lia).
+  rewrite split_tabs_notab by assumption.
+  rewrite !atoi_print0, strtoll_print0 by assumption. reflexivity.
+Qed.
+
+(* four tabs (the tear is inside the hash): ONE entry for the torn record's REAL output, with its
+   genuine times and mtime; only the hash is wrong: torn hex digits glued to the next start time *)
+Lemma merged_4tabs et (h1 : bytes) e' :
+  no_byte 9 (e_out et) = true -> no_byte 0 (e_out et) = true -> no_byte 9 h1 = true ->
+  in_int32 (e_start et) = true -> in_int32 (e_end et) = true -> in_int64 (e_mtime et) = true ->
+  merged_line_entry
+    (print_dec_Z (e_start et) ++ 9 :: print_dec_Z (e_end et) ++ 9 :: print_dec_Z (e_mtime et) ++
+     9 :: c_str (e_out et) ++ 9 :: h1) e' =
+  [ {| e_out := e_out et; e_start := e_start et; e_end := e_end et; e_mtime := e_mtime et;
+       e_hash := c_strtoull16 (h1 ++ print_dec_Z (e_start e') ++ 9 :: print_dec_Z (e_end e') ++ 9 ::
+                               print_dec_Z (e_mtime e') ++ 9 :: c_str (e_out e') ++ 9 ::
+                               print_hex_N (e_hash e')) |} ].
+Proof.
+  intros Ho H0 Hh Hs He Hm. unfold merged_line_entry.
+  rewrite !split_tabs_app by (apply print_dec_Z_no_byte; lia).
+  rewrite c_str_id by assumption.
+  rewrite split_tabs_app by assumption.
+  rewrite split_tabs_notab by assumption.
+  rewrite !atoi_print0, strtoll_print0 by assumption. cbn [map concat app]. reflexivity.
 Qed.
